@@ -14,7 +14,7 @@ impl FromMessage<RxMessage> for Vec<autd3_driver::firmware::cpu::RxMessage> {
     fn from_msg(msg: RxMessage) -> Result<Self, AUTDProtoBufError> {
         Ok(
             <[autd3_driver::firmware::cpu::RxMessage]>::ref_from_bytes(msg.data.as_bytes())
-                .unwrap()
+                .map_err(|_| AUTDProtoBufError::DataParseError)?
                 .to_vec(),
         )
     }
